@@ -193,7 +193,7 @@ def run(ctx):
                     "different primary key than its siblings (and a later correct call finds a PK already "
                     "marked)".format(f.short),
                 )
-    ctx.floor("ensure_has_primary_key calls in emitters", n_calls, 2)
+    ctx.floor("ensure_has_primary_key calls in emitters", n_calls, 1)
     # the class reader skips exactly the non-column attributes the class emitter writes
     c2t = index.func(EU + "sqlalchemy_class_to_table")
     emitted_dunders = set()
